@@ -353,7 +353,14 @@ def gen_gated_dag(rng: random.Random, *, max_nodes: int = 8, p_closed: float = 0
             nodes.append(plain_node())
             i += 1
     # several gates sharing a target: add a second gate in front of an already gated node
-    gated = [t for g in nodes if g["kind"] in ("route", "ifelse") for t in g["targets"] if t != "__END__"]
+    # (never a producer of a name shared between exclusive branches: a second gate could start it while the first one chose the
+    # other branch — two writers of the name in one run, which the constructor rejects)
+    n_prod: dict[str, int] = {}
+    for nd in nodes:
+        for o in nd.get("dataOuts", []):
+            n_prod[o] = n_prod.get(o, 0) + 1
+    sole = {nd["name"] for nd in nodes if all(n_prod[o] == 1 for o in nd.get("dataOuts", []))}
+    gated = [t for g in nodes if g["kind"] in ("route", "ifelse") for t in g["targets"] if t != "__END__" and t in sole]
     if gated and rng.random() < 0.3:
         tgt = rng.choice(gated)
         src = new_int_input()
@@ -531,14 +538,14 @@ def gen_map_node(rng: random.Random, force: str | None = None) -> dict:
     names = Names()
     # inner graph: a(x, y, c) -> r ; optional branch gate producing b or s depending on x
     branchy = rng.random() < 0.4
-    failing = rng.random() < 0.4 or force is not None
+    failing = (rng.random() < 0.4 or force is not None) and force != "product-order"
     inner_nodes = []
     if failing and (rng.random() < 0.5 or force == "raise-multi"):
         body = {"b": "failGe", "k": rng.randint(1, 4), "t": "EA"}     # several items fail, each with its OWN error
     else:
         body = {"b": "failIf", "k": rng.randint(0, 3), "t": "EA"} if failing else {"b": "tag", "t": "a"}
     params = [["x", None]]
-    n_mapped = rng.randint(1, 3)
+    n_mapped = rng.randint(2, 3) if force == "product-order" else rng.randint(1, 3)
     others = ["y", "z"][: n_mapped - 1]
     for o in others:
         params.append([o, None])
@@ -571,12 +578,21 @@ def gen_map_node(rng: random.Random, force: str | None = None) -> dict:
           "mapOver": [cur[p] for p in mapped], "mapMode": mode, "errMode": err}
     outs = ["rr" if out_ren else "r"] + (["b", "s"] if branchy else []) + (["px"] if any(n["name"] == "pre" for n in inner_nodes) else [])
     rng.shuffle(gn["mapOver"])
+    if force == "product-order":
+        # a cartesian product whose map_over names are given in ANOTHER order than the inner graph declares its inputs: the order of the
+        # names given decides the order of the combinations
+        gn["mapOver"] = [cur[p] for p in reversed(mapped)]
+        gn["mapMode"] = mode = "product"
+        gn["errMode"] = err = "raise"
     consumer = _fn_node("after", [[outs[0], None]], ["fin"], {"b": "tag", "t": "after"})
     outer = {"name": "g1", "nodes": [gn, consumer], "bound": []}
     L = rng.randint(0, 4)
     values = []
-    for p in mapped:
+    for j, p in enumerate(mapped):
         ln = L if mode == "zip" and rng.random() < 0.9 else rng.randint(0, 3)
+        if force == "product-order":
+            values.append([cur[p], {"l": rng.sample(range(0, 9), 2 + (j % 2))}])      # lists of different lengths, distinct members
+            continue
         values.append([cur[p], {"l": [rng.randint(0, 4) for _ in range(ln)]}])
     if has_bcast:
         values.append([cur["c"], rand_value(rng)])
